@@ -53,6 +53,10 @@ pub struct Case {
     /// also pass -L; only effective for trees without any symbolic link, where it must not change the outcome
     #[serde(default)]
     pub deref: bool,
+    /// the first stat (0) / open (1) / read (2) of the first source's .gitignore fails with EIO or EACCES: the
+    /// run must fail, or the filter still be right - an unreadable ignore file must not silently mean "no rules"
+    #[serde(default)]
+    pub ignore_fault: Option<(u8, bool)>,
 }
 
 pub fn strategy() -> BoxedStrategy<Case> {
@@ -74,8 +78,9 @@ pub fn strategy() -> BoxedStrategy<Case> {
         0..GNAMES.len() as u8,
         prop::option::weighted(0.3, (prop::collection::vec(tent, 2..12), prop::collection::vec(pat, 0..6))),
         prop::bool::weighted(0.4),
+        prop::option::weighted(0.15, (0u8..3, any::<bool>())),
     )
-        .prop_map(|(tree, pats, flags, use_flag, links, src_name, second, deref)| Case { tree, pats, flags, use_flag, links, src_name, second, deref })
+        .prop_map(|(tree, pats, flags, use_flag, links, src_name, second, deref, ignore_fault)| Case { tree, pats, flags, use_flag, links, src_name, second, deref, ignore_fault })
         .boxed()
 }
 
@@ -325,7 +330,38 @@ pub fn judge(c: &Case, rec: &mut Rec) -> Verdict {
         args.push(dir.clone());
     }
     args.push(s("d"));
-    let out = run_plain(&RunSpec::xcp(args.clone(), &sb.root, &sb.out));
+    struct Out {
+        okf: bool,
+        code: Option<i32>,
+        timed_out: bool,
+        stderr: String,
+    }
+    impl Out {
+        fn ok(&self) -> bool {
+            self.okf
+        }
+        fn stderr_s(&self) -> String {
+            self.stderr.clone()
+        }
+    }
+    let fault = match c.ignore_fault {
+        Some(f) if c.use_flag && !srcs[0].1.is_empty() => Some(f),
+        _ => None,
+    };
+    let out = if let Some((which, eio)) = fault {
+        use crate::sup::*;
+        let sys = [Sys::Stat, Sys::Open, Sys::Read][which as usize % 3];
+        let rule = Rule { sys: vec![sys], path: PathSel::Exact(join(&sb.rootb(), &join(&srcs[0].0, b".gitignore"))), nth: Nth::Kth(0), action: Action::Errno(if eio { libc::EIO } else { libc::EACCES }) };
+        let o = Sup::run(super::c06::sup_spec(&sb, args.clone(), vec![rule], Sched::free()));
+        if o.setup_error.is_some() {
+            return Verdict::Inconclusive(format!("supervisor {:?}", o.setup_error));
+        }
+        rec.class(format!("ignore-file-fault|{:?}|fired={}|exit={}", sys, o.fired.iter().sum::<usize>() > 0, if o.ok() { "0" } else { "!0" }));
+        Out { okf: o.ok(), code: o.code, timed_out: o.timed_out, stderr: o.stderr_s() }
+    } else {
+        let o = run_plain(&RunSpec::xcp(args.clone(), &sb.root, &sb.out));
+        Out { okf: o.ok(), code: o.code, timed_out: o.timed_out, stderr: o.stderr_s() }
+    };
     rec.eval(1);
     if out.timed_out {
         return Verdict::Inconclusive("watchdog".into());
@@ -389,7 +425,7 @@ impl Check for C17 {
         "C17"
     }
     fn rule(&self) -> String {
-        "proptest-generated source trees (3-21 entries over 12 names: files, directories incl. empty ones, hidden names, symlinks to files and to directories, depth <= 3) with a root .gitignore of 1-8 lines from a grammar instantiated over names that occur in the tree (and one that does not): literal, *.ext, prefix*, *suffix, ?, n?, **/n, n/**, n/ (directory only), /n (anchored), dir/n, each optionally negated with !, comments and blank lines (never a pattern matching .gitignore itself, no nested .gitignore); optionally a second source directory with its own tree and .gitignore; source directories named from the same name pool (so entries named like their source occur); both drivers; with and (15%) without --gitignore; on trees without any symbolic link additionally (40%) with -L, which must not change the outcome. Oracle: git itself - `git check-ignore --no-index -v -n -z --stdin` on a throw-away bare git-dir with the source as work tree gives the verdict per entry (excluded iff the entry or an ancestor matches a non-negated last pattern), cross-checked against `git ls-files --others --exclude-standard` (a case where git disagrees with itself is dropped and counted); exit 0 => the set of relative paths in the destination equals the non-excluded set (everything without the flag). Non-trivial: flag on, >=1 entry excluded and >=1 copied; distinct by case hash.".into()
+        "proptest-generated source trees (3-21 entries over 12 names: files, directories incl. empty ones, hidden names, symlinks to files and to directories, depth <= 3) with a root .gitignore of 1-8 lines from a grammar instantiated over names that occur in the tree (and one that does not): literal, *.ext, prefix*, *suffix, ?, n?, **/n, n/**, n/ (directory only), /n (anchored), dir/n, each optionally negated with !, comments and blank lines (never a pattern matching .gitignore itself, no nested .gitignore); optionally a second source directory with its own tree and .gitignore; source directories named from the same name pool (so entries named like their source occur); both drivers; with and (15%) without --gitignore; on trees without any symbolic link additionally (40%) with -L, which must not change the outcome; in a seventh of the cases the first stat / open / read of the first source's .gitignore fails with EIO or EACCES (the run must fail, or the filter still be right). Oracle: git itself - `git check-ignore --no-index -v -n -z --stdin` on a throw-away bare git-dir with the source as work tree gives the verdict per entry (excluded iff the entry or an ancestor matches a non-negated last pattern), cross-checked against `git ls-files --others --exclude-standard` (a case where git disagrees with itself is dropped and counted); exit 0 => the set of relative paths in the destination equals the non-excluded set (everything without the flag). Non-trivial: flag on, >=1 entry excluded and >=1 copied; distinct by case hash.".into()
     }
     fn assumptions(&self) -> Vec<String> {
         vec!["git 2.39 semantics are the reference for 'git's pattern semantics'".into()]
@@ -417,6 +453,6 @@ impl Check for C17 {
         }
     }
     fn required_classes(&self, _tier: Tier) -> Vec<String> {
-        ["feature|literal", "feature|star", "feature|qmark", "feature|**/", "feature|/**", "feature|dir-only", "feature|anchored", "feature|path", "neg=true", "flag=false", "links=true", "srcs=2", "entry-named-like-its-source", "dereference-on-a-link-free-tree|flag=true"].iter().map(|s| s.to_string()).collect()
+        ["feature|literal", "feature|star", "feature|qmark", "feature|**/", "feature|/**", "feature|dir-only", "feature|anchored", "feature|path", "neg=true", "flag=false", "links=true", "srcs=2", "entry-named-like-its-source", "dereference-on-a-link-free-tree|flag=true", "ignore-file-fault|Open|fired=true", "ignore-file-fault|Read|fired=true", "ignore-file-fault|Stat|fired=true"].iter().map(|s| s.to_string()).collect()
     }
 }
